@@ -954,7 +954,13 @@ func (e *Env) specCallVals(fo *types.Func, args []Val) Val {
 	if fn == nil {
 		e.fail("no SSA for %s", fo.FullName())
 	}
-	if len(fn.Blocks) == 0 {
+	if len(fn.Blocks) == 0 || (fn.Pkg != nil && !x.p.inModule(fn.Pkg.Pkg.Path())) {
+		switch fo.FullName() {
+		case "bytes.Compare":
+			return x.heapPureApp(e.st, "bytes_Compare", args, fn.Signature.Results().At(0).Type())
+		case "bytes.Equal":
+			return x.heapPureApp(e.st, "bytes_Equal", args, fn.Signature.Results().At(0).Type())
+		}
 		e.fail("spec call of external function %s", fo.FullName())
 	}
 	resT := fn.Signature.Results()
